@@ -756,5 +756,7 @@ func main() {
 	c.Assume("the repository's VRF and KES provers and ed25519 are trusted (C38/C39 check the verifiers); leadership of the chosen slots is decided by the real threshold code (C37)")
 	c.Assume("ledger side = NewBlockFromCbor + VerifyBlock (transaction and stake-pool validation skipped: no ledger state) AND ledger.ValidateOpCert; a mutant refused at decode counts as refused")
 	c.Assume("regime B (re-signed): a pipeline must refuse when something other than the KES signature binds the field (VRF certificate, operational certificate, body, chain context it is given); body size and protocol version on both sides, and block number / previous hash / TPraos nonce certificate on the ledger side (VerifyBlock documents: leader VRF only, no chain context) are recorded but not judged")
+	// free-running -race pass: concurrent callers on their own inputs (state the library shares between calls)
+	c.RaceAudit("c40")
 	c.Finish()
 }
